@@ -44,6 +44,25 @@ CLAIMED["C14"] = (
     "the mutex makes markDir/isMarked atomic (assumed).",
     "contract-based deductive verification (call-site obligations + walk iteration contract + SMT)", "6/C14")
 
+CLAIMED["C35"] = (
+    "Proof that checkRuleHashesOfType returns true exactly when some declared value of the right length equals the hex digest under one of the "
+    "configured algorithms (two nested search loops), that checkRuleHashes returns nil exactly when no hashes are declared or a declared value "
+    "(algorithm prefix aside) equals the computed hash or passes checkRuleHashesOfType, and that UnprefixedHashes strips prefixes pointwise "
+    "without writing to the target (frame obligation; this exposed the alias defect repaired by commit d3f0bea). Kernel-only: "
+    "calculateAndCheckRuleHash / retrieveArtifacts (no rule hash written, outputs removed on failure) are not under contract yet.",
+    COMMON_NOTE + "outputHash is abstracted as an uninterpreted function of (target, outputs, hasher, combine): the file system is assumed not to "
+    "change during one check; hex encoding and PathHasher.Size are uninterpreted pure functions.",
+    "contract-based deductive verification (search-loop invariants, frame obligations + SMT)", "6/C35")
+
+CLAIMED["C06"] = (
+    "Proof of soundness of the cycle detector for all graphs and all visiting orders: the recursive closure visit is verified against a "
+    "recursive contract (nil result keeps the partial set; non-nil result is a dependency chain that is closed, or open with its tail on the "
+    "caller's stack), Check is verified against 'every reported cycle is a genuine closed dependency chain', hence an acyclic graph is never "
+    "reported. Completeness (a cycle exists implies one is reported) is NOT proved here.",
+    COMMON_NOTE + "Dependencies() and AllTargets() are assumed pure functions of the target/graph returning non-nil targets; c.stopped only "
+    "makes Check return nil; termination is not proved.",
+    "contract-based deductive verification (recursive closure contract, set-valued map invariants + SMT)", "6/C06")
+
 NOT_APPLICABLE = {
     "C05": "liveness / whole-run exit status under all schedules: no per-call contract expresses it (safety fragment is under C04)",
     "C30": "OS process groups, signals and wall-clock bounds; goroutines and select are outside the sequential contract model",
